@@ -501,6 +501,23 @@ M('C12', 'dk-pass-stripped', FL, "            hpass = passphrase.encode('utf-8')
 M('C12', 'dk-contexts-forked-after-data', FL, "        h = []\n        for i in range(0, ctx):\n            _h = self.halg.hasher\n            _h.update(b'\\x00' * i)\n            _h.update(hashdata)\n            h.append(_h)\n",
   "        base = self.halg.hasher\n        base.update(hashdata)\n        h = []\n        for i in range(0, ctx):\n            _h = base.copy()\n            _h.update(b'\\x00' * i)\n            h.append(_h)\n", 'C12.1')
 M('C12', 'count-setter-stores-decoded', FL, "            raise ValueError(\"count must be between 0 and 256\")\n        self._count = val\n", "            raise ValueError(\"count must be between 0 and 256\")\n        self._count = (16 + (val & 15)) << ((val >> 4) + 6)\n", 'C12.3')
+# --- wave 5: class-level lookup table for the count, new derive_key parameter bound per call site
+_CNT_DEF = "    @sdproperty\n    def count(self):\n        return (16 + (self._count & 15)) << ((self._count >> 4) + 6)"
+T('C12', 'twin-count-table', FL, _CNT_DEF, "    _octet_counts = tuple((16 + (c & 15)) << ((c >> 4) + 6) for c in range(256))\n\n    @sdproperty\n    def count(self):\n        return self._octet_counts[self._count]")
+T('C12', 'twin-count-table-list', FL, _CNT_DEF, "    _EXPBIAS = 6\n    _COUNTS = [(16 + m) << (e + _EXPBIAS) for e in range(16) for m in range(16)][:256] if False else [(16 + (c % 16)) << ((c // 16) + 6) for c in range(256)]\n\n    @sdproperty\n    def count(self):\n        return String2Key._COUNTS[self._count]"
+  .replace("[(16 + m) << (e + _EXPBIAS) for e in range(16) for m in range(16)][:256] if False else ", ""))
+M('C12', 'count-table-255-entries', FL, _CNT_DEF, "    _octet_counts = tuple((16 + (c & 15)) << ((c >> 4) + 6) for c in range(1, 256))\n\n    @sdproperty\n    def count(self):\n        return self._octet_counts[self._count - 1]", 'C12.3')
+M('C12', 'count-table-bias-5', FL, _CNT_DEF, "    _octet_counts = tuple((16 + (c & 15)) << ((c >> 4) + 5) for c in range(256))\n\n    @sdproperty\n    def count(self):\n        return self._octet_counts[self._count]", 'C12.3')
+M('C12', 'count-table-clamped', FL, _CNT_DEF, "    _octet_counts = tuple(min((16 + (c & 15)) << ((c >> 4) + 6), 1 << 25) for c in range(256))\n\n    @sdproperty\n    def count(self):\n        return self._octet_counts[self._count]", 'C12.3')
+_DK_SIG = "    def derive_key(self, passphrase):\n        ##TODO: raise an exception if self.usage is not 254 or 255\n        keylen = self.encalg.key_size\n"
+_DK_SIG_KW = "    def derive_key(self, passphrase, *, keylen=None):\n        ##TODO: raise an exception if self.usage is not 254 or 255\n        if keylen is None:\n            keylen = self.encalg.key_size\n"
+_DK_CALL = "        sessionkey = self.s2k.derive_key(passphrase)\n        del passphrase\n\n        pt = bytearray()"
+T('C12', 'twin-dk-keylen-param', FL, _DK_SIG, _DK_SIG_KW, more=[(FL, _DK_CALL, _DK_CALL.replace("derive_key(passphrase)", "derive_key(passphrase, keylen=self.s2k.encalg.key_size)"))])
+T('C12', 'twin-dk-keylen-param-positional', FL, _DK_SIG, _DK_SIG_KW.replace("passphrase, *, keylen=None", "passphrase, keylen=None"), more=[(FL, _DK_CALL, _DK_CALL.replace("derive_key(passphrase)", "derive_key(passphrase, self.s2k.encalg.key_size)"))])
+M('C12', 'dk-keylen-param-caller-128', FL, _DK_SIG, _DK_SIG_KW, 'C12.1', more=[(FL, _DK_CALL, _DK_CALL.replace("derive_key(passphrase)", "derive_key(passphrase, keylen=128)"))])
+M('C12', 'dk-keylen-param-caller-block-size', FL, _DK_SIG, _DK_SIG_KW, 'C12.1', more=[(FL, _DK_CALL, _DK_CALL.replace("derive_key(passphrase)", "derive_key(passphrase, keylen=self.s2k.encalg.block_size)"))])
+M('C12', 'dk-keylen-param-default-256', FL, _DK_SIG, "    def derive_key(self, passphrase, *, keylen=256):\n        ##TODO: raise an exception if self.usage is not 254 or 255\n", 'C12.1')
+M('C12', 'dk-keylen-param-bytes', FL, _DK_SIG, _DK_SIG_KW, 'C12.1', more=[(FL, _DK_CALL, _DK_CALL.replace("derive_key(passphrase)", "derive_key(passphrase, keylen=self.s2k.encalg.key_size // 8)"))])
 M('C12', 'count-getter-or-default', FL, "        return (16 + (self._count & 15)) << ((self._count >> 4) + 6)", "        c = self._count or self.halg.tuned_count\n        return (16 + (c & 15)) << ((c >> 4) + 6)", 'C12.3')
 M('C12', 'count-getter-255-special', FL, "        return (16 + (self._count & 15)) << ((self._count >> 4) + 6)", "        if self._count == 255:\n            return self.encalg.block_size * 1024\n        return (16 + (self._count & 15)) << ((self._count >> 4) + 6)", 'C12.3')
 M('C12', 'count-getter-255-capped', FL, "        return (16 + (self._count & 15)) << ((self._count >> 4) + 6)", "        if self._count == 255:\n            return 0x2000000\n        return (16 + (self._count & 15)) << ((self._count >> 4) + 6)", 'C12.3')
@@ -2912,6 +2929,16 @@ M('C06', 'unlock-cleanup-in-else-only', PGP, _UNL_TRY, _UNL_BODY + "        exce
 M('C06', 'unlock-except-exception-and-generatorexit', PGP, _UNL_TRY, _UNL_BODY + "        except (Exception, GeneratorExit):\n" + _UNL_CLR + "\n            raise\n\n        else:\n" + _UNL_CLR, 'C06.1')
 T('C06', 'twin-unlock-except-baseexception', PGP, _UNL_TRY, _UNL_BODY + "        except BaseException:\n" + _UNL_CLR + "\n            raise\n\n        else:\n" + _UNL_CLR)
 T('C06', 'twin-unlock-bare-except-closure', PGP, _UNL_TRY, "        def _relock():\n" + _UNL_CLR + "\n\n" + _UNL_BODY + "        except:  # noqa: E722\n            _relock()\n            raise\n\n        else:\n            _relock()")
+# --- wave 5: the coded count rule under a C06 id (protect() stores a coded count), extra derive_key argument at the call site
+M('C06', 'count-clamped-2-25', FL, "        return (16 + (self._count & 15)) << ((self._count >> 4) + 6)", "        return min((16 + (self._count & 15)) << ((self._count >> 4) + 6), 1 << 25)", 'C06.9')
+M('C06', 'count-or-default', FL, "        return (16 + (self._count & 15)) << ((self._count >> 4) + 6)", "        c = self._count or 96\n        return (16 + (c & 15)) << ((c >> 4) + 6)", 'C06.9')
+M('C06', 'count-setter-254', FL, "        if val < 0 or val > 255:  # pragma: no cover", "        if val < 0 or val >= 255:  # pragma: no cover", 'C06.9')
+T('C06', 'twin-keyblob-derive-keylen-kw', FL, "    def derive_key(self, passphrase):\n        ##TODO: raise an exception if self.usage is not 254 or 255\n        keylen = self.encalg.key_size\n",
+  "    def derive_key(self, passphrase, *, keylen=None):\n        ##TODO: raise an exception if self.usage is not 254 or 255\n        if keylen is None:\n            keylen = self.encalg.key_size\n",
+  more=[(FL, "        sessionkey = self.s2k.derive_key(passphrase)\n        del passphrase\n\n        pt = bytearray()", "        sessionkey = self.s2k.derive_key(passphrase, keylen=self.s2k.encalg.key_size)\n        del passphrase\n\n        pt = bytearray()")])
+M('C06', 'keyblob-derive-keylen-of-caller-arg', FL, "    def derive_key(self, passphrase):\n        ##TODO: raise an exception if self.usage is not 254 or 255\n        keylen = self.encalg.key_size\n",
+  "    def derive_key(self, passphrase, *, keylen=None):\n        ##TODO: raise an exception if self.usage is not 254 or 255\n        if keylen is None:\n            keylen = self.encalg.key_size\n", 'C06.8',
+  more=[(FL, "        sessionkey = self.s2k.derive_key(passphrase)\n        del passphrase\n\n        pt = bytearray()", "        sessionkey = self.s2k.derive_key(passphrase, keylen=192)\n        del passphrase\n\n        pt = bytearray()")])
 M('C06', 'keyblob-clear-first', FL, "        sessionkey = self.s2k.derive_key(passphrase)\n        del passphrase\n\n        pt = bytearray()\n", "        sessionkey = self.s2k.derive_key(passphrase)\n        del passphrase\n        self.clear()\n\n        pt = bytearray()\n", 'C06.3',
   more=[(FL, "        # delete pt and clear self\n        del pt\n        self.clear()", "        # delete pt\n        del pt")])
 M('C06', 'privkey-cached-module-dict', FL, "        params = dsa.DSAParameterNumbers(self.p, self.q, self.g)\n        pn = dsa.DSAPublicNumbers(self.y, params)\n        return dsa.DSAPrivateNumbers(self.x, pn).private_key(default_backend())",
